@@ -1,20 +1,39 @@
 #!/venv/bin/python
-"""Source translator (fail-closed): the CURRENT text of pyrtcm's integer kernels -> MiniPy abstract syntax (coq/Src/MiniPy.v).
+"""Source translator (fail-closed): the CURRENT text of pyrtcm's integer kernels and of RTCMMessage.serialize / .identity
+-> MiniPy abstract syntax (coq/Src/MiniPy.v).
 
-usage: gen_src.py OUT.v            (reads $VERIF_REPO/src/pyrtcm/rtcmhelpers.py; default /repo)
+usage: gen_src.py OUT.v            (reads $VERIF_REPO/src/pyrtcm/{rtcmhelpers,rtcmmessage,rtcmtypes_core}.py; default /repo)
 
 Every construct outside the subset below makes the translator refuse (exit 2, message on stderr): the per-run equivalence
 theorems in run/Src_inst.v then cannot be stated and the check falls back to the sampled correspondence (and switches its
 drivers to the thorough corpus).  Nothing is guessed.
 
 Subset: def f(<one positional parameter>) with an optional docstring; `x = e`, `x op= e`, `for x in <name>:`,
-`for x in range(e):`, `if e: .. else: ..`, `return e`; e ::= int literal | local name | e op e (+ - * << >> & | ^) |
-len(e) | e.to_bytes(<int literal>, "big") | g(e) for another translated function g."""
+`for x in range(e):`, `if e: .. else: ..`, `return e`; e ::= int literal | bytes literal | local name | e op e (+ - * << >> & | ^) |
+len(e) | e.to_bytes(<int literal>, "big") | g(e) for another translated function g | e[e] | e == e | str(e) |
+f"..." made of literal text, {e} and {e:03d}.
+
+Methods (class RTCMMessage in rtcmmessage.py): `def f(self)` (identity: with the single decorator @property) becomes a MiniPy
+function of the VALUE of self._payload: every occurrence of `self` in the body must be exactly the attribute read
+`self._payload`; it is emitted as the variable "self._payload" (no Python identifier contains a dot, so it cannot clash).
+Free names a method may use: len2bytes / crc2bytes (must be imported, unaliased, by one top-level
+`from pyrtcm.rtcmhelpers import ...` and bound nowhere else in the module) and RTCM_HDR (same, from pyrtcm.rtcmtypes_core; its
+value is read from the SOURCE TEXT of rtcmtypes_core.py, where it must be bound exactly once, by a top-level
+`RTCM_HDR = b"..."`), and the builtins len / range / str / property (must not be bound at module level).  `global` declarations
+of any of these names anywhere in the module, star imports, a decorated / keyworded class, a second binding of the method's
+name, of `_payload` or of `__getattribute__` in the class body make the translator refuse."""
 import ast
 import os
 import sys
 
 FUNCS = ["calc_crc24q", "crc2bytes", "len2bytes"]      # dependency order (callee first)
+METHODS = ["serialize", "identity"]                    # of class RTCMMessage; may call FUNCS
+CLASS = "RTCMMessage"
+PAYLOAD = "_payload"                                   # the only attribute of self a method may read
+HELPER_MODULE = "pyrtcm.rtcmhelpers"
+CONST_MODULE = "pyrtcm.rtcmtypes_core"
+CONSTS = ["RTCM_HDR"]                                  # module constants (bytes literals) a method may name
+BUILTINS = ["len", "range", "str", "property"]         # builtins the translation gives a meaning to
 BINOPS = {ast.Add: "OAdd", ast.Sub: "OSub", ast.Mult: "OMul", ast.LShift: "OShl", ast.RShift: "OShr",
           ast.BitAnd: "OAnd", ast.BitOr: "OOr", ast.BitXor: "OXor"}
 
@@ -33,15 +52,27 @@ def zlit(i):
     return "(%d)" % i
 
 
+def byteslit(b):
+    return "[" + "; ".join("Coq.Init.Byte.x%02x" % c for c in b) + "]"
+
+
 class Fn:
-    def __init__(self, node, known):
+    def __init__(self, node, known, method=False, consts=None, decorators=()):
         self.node = node
         self.known = known
+        self.consts = consts or {}          # name -> Coq term of type list byte
         a = node.args
         if (len(a.args) != 1 or a.posonlyargs or a.kwonlyargs or a.vararg or a.kwarg or a.defaults or a.kw_defaults
-                or node.decorator_list or isinstance(node, ast.AsyncFunctionDef)):
+                or isinstance(node, ast.AsyncFunctionDef)):
             raise Unsupported("%s: signature" % node.name)
+        if [ast.dump(d) for d in node.decorator_list] != [ast.dump(ast.Name(id=d, ctx=ast.Load())) for d in decorators]:
+            raise Unsupported("%s: decorators" % node.name)
+        self.selfname = None
         self.param = a.args[0].arg
+        if method:
+            self.selfname = a.args[0].arg
+            self.param = "self.%s" % PAYLOAD    # not an identifier: cannot clash with a local
+            self.check_self()
         self.locals = []
         body = list(node.body)
         if body and isinstance(body[0], ast.Expr) and isinstance(body[0].value, ast.Constant) and isinstance(body[0].value.value, str):
@@ -59,29 +90,82 @@ class Fn:
                 if isinstance(n, ast.Name) and isinstance(n.ctx, ast.Store) and n.id != self.param and n.id not in self.locals:
                     self.locals.append(n.id)
 
+    def check_self(self):
+        """every occurrence of the method's first parameter is the object of the attribute READ self._payload"""
+        ok = set()
+        for n in ast.walk(self.node):
+            if (isinstance(n, ast.Attribute) and isinstance(n.ctx, ast.Load) and n.attr == PAYLOAD
+                    and isinstance(n.value, ast.Name) and n.value.id == self.selfname and isinstance(n.value.ctx, ast.Load)):
+                ok.add(id(n.value))
+        for n in ast.walk(self.node):
+            if isinstance(n, ast.Name) and n.id == self.selfname and id(n) not in ok:
+                raise Unsupported("%s: use of %s other than reading %s.%s (line %d)"
+                                  % (self.node.name, self.selfname, self.selfname, PAYLOAD, n.lineno))
+            if isinstance(n, ast.arg) and n is not self.node.args.args[0] and n.arg == self.selfname:
+                raise Unsupported("%s: %s rebound" % (self.node.name, self.selfname))
+
+    def bound(self, n):
+        return n == self.param or n == self.selfname or n in self.locals
+
     def name(self, n):
-        if n == self.param or n in self.locals:
+        if n != self.selfname and (n == self.param or n in self.locals):
             return cstr(n)
         raise Unsupported("%s: free name %s" % (self.node.name, n))
 
     def expr(self, e):
         if isinstance(e, ast.Constant) and isinstance(e.value, int) and not isinstance(e.value, bool):
             return "(EInt %s)" % zlit(e.value)
+        if isinstance(e, ast.Constant) and isinstance(e.value, bytes):
+            return "(EBytes %s)" % byteslit(e.value)
+        if (self.selfname is not None and isinstance(e, ast.Attribute) and isinstance(e.ctx, ast.Load) and e.attr == PAYLOAD
+                and isinstance(e.value, ast.Name) and e.value.id == self.selfname):
+            return "(EVar %s)" % cstr(self.param)
+        if isinstance(e, ast.Name) and isinstance(e.ctx, ast.Load) and e.id in self.consts and not self.bound(e.id):
+            return "(EBytes %s)" % self.consts[e.id]
         if isinstance(e, ast.Name) and isinstance(e.ctx, ast.Load):
             return "(EVar %s)" % self.name(e.id)
+        if isinstance(e, ast.Subscript) and isinstance(e.ctx, ast.Load) and not isinstance(e.slice, (ast.Slice, ast.Tuple)):
+            return "(EIndex %s %s)" % (self.expr(e.value), self.expr(e.slice))
+        if isinstance(e, ast.Compare) and len(e.ops) == 1 and isinstance(e.ops[0], ast.Eq) and len(e.comparators) == 1:
+            return "(ECmpEq %s %s)" % (self.expr(e.left), self.expr(e.comparators[0]))
+        if isinstance(e, ast.JoinedStr):
+            return self.fstring(e)
         if isinstance(e, ast.BinOp) and type(e.op) in BINOPS:
             return "(EBin %s %s %s)" % (BINOPS[type(e.op)], self.expr(e.left), self.expr(e.right))
         if isinstance(e, ast.Call) and not e.keywords:
             f = e.func
-            if isinstance(f, ast.Name) and f.id == "len" and len(e.args) == 1 and "len" not in self.locals and self.param != "len":
+            if isinstance(f, ast.Name) and f.id == "len" and len(e.args) == 1 and not self.bound("len"):
                 return "(ELen %s)" % self.expr(e.args[0])
-            if isinstance(f, ast.Name) and f.id in self.known and len(e.args) == 1 and f.id not in self.locals and f.id != self.param:
+            if isinstance(f, ast.Name) and f.id == "str" and len(e.args) == 1 and not self.bound("str"):
+                return "(EStrOf %s)" % self.expr(e.args[0])
+            if isinstance(f, ast.Name) and f.id in self.known and len(e.args) == 1 and not self.bound(f.id):
                 return "(ECall %s %s)" % (cstr(f.id), self.expr(e.args[0]))
             if (isinstance(f, ast.Attribute) and f.attr == "to_bytes" and len(e.args) == 2
                     and isinstance(e.args[0], ast.Constant) and isinstance(e.args[0].value, int) and not isinstance(e.args[0].value, bool)
                     and isinstance(e.args[1], ast.Constant) and e.args[1].value == "big"):
                 return "(EToBytesBig %s %s)" % (self.expr(f.value), zlit(e.args[0].value))
         raise Unsupported("%s: expression %s" % (self.node.name, ast.dump(e)[:120]))
+
+    def fstring(self, e):
+        """f"..." : literal text, {e} (no conversion, no spec) and {e:03d}; joined left to right"""
+        parts = []
+        for v in e.values:
+            if isinstance(v, ast.Constant) and isinstance(v.value, str):
+                parts.append("(EStrLit %s)" % cstr(v.value))
+            elif isinstance(v, ast.FormattedValue) and v.conversion == -1 and v.format_spec is None:
+                parts.append("(EStrOf %s)" % self.expr(v.value))
+            elif (isinstance(v, ast.FormattedValue) and v.conversion == -1 and isinstance(v.format_spec, ast.JoinedStr)
+                  and len(v.format_spec.values) == 1 and isinstance(v.format_spec.values[0], ast.Constant)
+                  and v.format_spec.values[0].value == "03d"):
+                parts.append("(EFmt03d %s)" % self.expr(v.value))
+            else:
+                raise Unsupported("%s: f-string piece %s" % (self.node.name, ast.dump(v)[:120]))
+        if not parts:
+            return '(EStrLit "")'
+        out = parts[-1]
+        for p in reversed(parts[:-1]):
+            out = "(EStrCat %s %s)" % (p, out)
+        return out
 
     def stmts(self, body):
         return "[" + "; ".join(self.stmt(s) for s in body) + "]"
@@ -94,7 +178,7 @@ class Fn:
         if isinstance(s, ast.For) and isinstance(s.target, ast.Name) and not s.orelse:
             it = s.iter
             if (isinstance(it, ast.Call) and isinstance(it.func, ast.Name) and it.func.id == "range" and len(it.args) == 1
-                    and not it.keywords and "range" not in self.locals and self.param != "range"):
+                    and not it.keywords and not self.bound("range")):
                 i = "(IRange %s)" % self.expr(it.args[0])
             elif isinstance(it, ast.Name):
                 i = "(IBytes %s)" % self.expr(it)
@@ -109,6 +193,117 @@ class Fn:
 
     def coq(self):
         return "{| f_param := %s; f_locals := [%s]; f_body := %s |}" % (cstr(self.param), "; ".join(cstr(x) for x in self.locals), self.body)
+
+
+def scope_bindings(body, what):
+    """name -> number of binding occurrences in the statements `body` of one scope (module or class body): assignment /
+    for / with / except / walrus / del targets, imports, def and class names; nested function and class BODIES are other scopes
+    and are not entered (their decorators, defaults and bases are).  Star imports are refused."""
+    count = {}
+
+    def bind(n):
+        count[n] = count.get(n, 0) + 1
+
+    def visit(n):
+        if isinstance(n, (ast.FunctionDef, ast.AsyncFunctionDef, ast.ClassDef)):
+            bind(n.name)
+            for d in n.decorator_list:
+                visit(d)
+            if isinstance(n, ast.ClassDef):
+                for d in list(n.bases) + [k.value for k in n.keywords]:
+                    visit(d)
+            else:
+                for d in list(n.args.defaults) + [d for d in n.args.kw_defaults if d is not None]:
+                    visit(d)
+            return
+        if isinstance(n, ast.Lambda):
+            return
+        if isinstance(n, (ast.Import, ast.ImportFrom)):
+            for a in n.names:
+                if a.name == "*":
+                    raise Unsupported("%s: star import" % what)
+                bind(a.asname or a.name.split(".")[0])
+            return
+        if isinstance(n, ast.Name) and isinstance(n.ctx, (ast.Store, ast.Del)):
+            bind(n.id)
+        if isinstance(n, ast.ExceptHandler) and n.name:
+            bind(n.name)
+        if isinstance(n, (ast.MatchAs, ast.MatchStar)) and n.name:
+            bind(n.name)
+        if isinstance(n, ast.MatchMapping) and n.rest:
+            bind(n.rest)
+        for c in ast.iter_child_nodes(n):
+            visit(c)
+
+    for s in body:
+        visit(s)
+    return count
+
+
+def declared_global(tree):
+    return {x for n in ast.walk(tree) if isinstance(n, (ast.Global, ast.Nonlocal)) for x in n.names}
+
+
+def imported_once(tree, binds, name, module, what):
+    """`name` is bound exactly once at module level, by a top-level `from <module> import ..., name, ...` without alias"""
+    hits = [n for n in tree.body if isinstance(n, ast.ImportFrom) and n.module == module and n.level == 0
+            and any(a.name == name and a.asname is None for a in n.names)]
+    if len(hits) != 1 or binds.get(name, 0) != 1:
+        raise Unsupported("%s: %s is not bound exactly once, by a top-level `from %s import %s`" % (what, name, module, name))
+
+
+def read_consts(repo):
+    """values of the module constants, from the source text of rtcmtypes_core.py"""
+    path = os.path.join(repo, "src", "pyrtcm", "rtcmtypes_core.py")
+    tree = ast.parse(open(path).read())
+    binds = scope_bindings(tree.body, path)
+    glob = declared_global(tree)
+    vals = {}
+    for c in CONSTS:
+        hits = [n for n in tree.body if isinstance(n, ast.Assign) and len(n.targets) == 1 and isinstance(n.targets[0], ast.Name)
+                and n.targets[0].id == c]
+        if len(hits) != 1 or binds.get(c, 0) != 1 or c in glob:
+            raise Unsupported("%s: %s is not bound exactly once, by a top-level assignment" % (path, c))
+        v = hits[0].value
+        if not (isinstance(v, ast.Constant) and isinstance(v.value, bytes)):
+            raise Unsupported("%s: %s is not a bytes literal" % (path, c))
+        vals[c] = v.value
+    return vals
+
+
+def read_methods(repo, known, constvals):
+    """the FunctionDef nodes of METHODS in class RTCMMessage, after checking how their free names are bound"""
+    path = os.path.join(repo, "src", "pyrtcm", "rtcmmessage.py")
+    tree = ast.parse(open(path).read())
+    binds = scope_bindings(tree.body, path)
+    glob = declared_global(tree)
+    for f in known:
+        imported_once(tree, binds, f, HELPER_MODULE, path)
+    for c in constvals:
+        imported_once(tree, binds, c, CONST_MODULE, path)
+    for b in BUILTINS:
+        if binds.get(b, 0) != 0:
+            raise Unsupported("%s: builtin %s rebound at module level" % (path, b))
+    for n in list(known) + list(constvals) + BUILTINS + [CLASS]:
+        if n in glob:
+            raise Unsupported("%s: %s declared global/nonlocal in some function" % (path, n))
+    classes = [n for n in tree.body if isinstance(n, ast.ClassDef) and n.name == CLASS]
+    if len(classes) != 1 or binds.get(CLASS, 0) != 1:
+        raise Unsupported("%s: class %s is not bound exactly once, by a top-level class statement" % (path, CLASS))
+    cls = classes[0]
+    if cls.decorator_list or cls.keywords:
+        raise Unsupported("%s: class %s is decorated or has keywords" % (path, CLASS))
+    cbinds = scope_bindings(cls.body, path)
+    for n in (PAYLOAD, "__getattribute__"):
+        if cbinds.get(n, 0) != 0:
+            raise Unsupported("%s: %s bound in the body of class %s" % (path, n, CLASS))
+    nodes = {}
+    for m in METHODS:
+        hits = [n for n in cls.body if isinstance(n, ast.FunctionDef) and n.name == m]
+        if len(hits) != 1 or cbinds.get(m, 0) != 1:
+            raise Unsupported("%s: %s.%s is not bound exactly once, by a def directly in the class body" % (path, CLASS, m))
+        nodes[m] = hits[0]
+    return nodes
 
 
 def main():
@@ -126,7 +321,15 @@ def main():
                 for m in ast.walk(t):
                     if isinstance(m, ast.Name) and m.id in FUNCS:
                         raise Unsupported("%s rebound at module level" % m.id)
-    out = ["(* GENERATED by tools/gen_src.py from %s -- do not edit *)" % path,
+    hbinds = scope_bindings(tree.body, path)
+    hglob = declared_global(tree)
+    for f in FUNCS:
+        if hbinds.get(f, 0) != 1 or f in hglob:
+            raise Unsupported("%s: %s is not bound exactly once at module level" % (path, f))
+    for b in BUILTINS:
+        if hbinds.get(b, 0) != 0 or b in hglob:
+            raise Unsupported("%s: builtin %s rebound at module level" % (path, b))
+    out = ["(* GENERATED by tools/gen_src.py from %s (and rtcmmessage.py, rtcmtypes_core.py beside it) -- do not edit *)" % path,
            "From Coq Require Import ZArith List String.", "From PyRtcm Require Import Src.MiniPy.",
            "Import ListNotations.", "Open Scope string_scope.", "Open Scope Z_scope.", ""]
     known = []
@@ -136,15 +339,28 @@ def main():
         fn = Fn(defs[f], known)
         out.append("Definition src_%s : func :=\n  %s." % (f, fn.coq()))
         known.append(f)
+    # ---- methods of RTCMMessage
+    constvals = read_consts(repo)
+    mknown = [f for f in ("len2bytes", "crc2bytes") if f in known]
+    nodes = read_methods(repo, mknown, constvals)
+    out.append("(* module constants, from the source text of %s.py *)" % CONST_MODULE)
+    consts = {}
+    for c in CONSTS:
+        out.append("Definition src_const_%s : list Coq.Init.Byte.byte := %s." % (c, byteslit(constvals[c])))
+        consts[c] = "src_const_%s" % c
+    for m in METHODS:
+        fn = Fn(nodes[m], mknown, method=True, consts=consts, decorators=(["property"] if m == "identity" else []))
+        out.append("Definition src_%s : func :=\n  %s." % (m, fn.coq()))
     out.append("(* callee later in the list, see MiniPy.link *)")
-    out.append("Definition src_prog : list (string * func) := [%s]." % "; ".join('("%s", src_%s)' % (f, f) for f in reversed(FUNCS)))
+    out.append("Definition src_prog : list (string * func) := [%s]."
+               % "; ".join('("%s", src_%s)' % (f, f) for f in list(reversed(METHODS)) + list(reversed(FUNCS))))
     open(sys.argv[1], "w").write("\n".join(out) + "\n")
-    print("translated", ", ".join(FUNCS))
+    print("translated", ", ".join(FUNCS + METHODS))
 
 
 if __name__ == "__main__":
     try:
         main()
-    except Unsupported as e:
+    except (Unsupported, SyntaxError, OSError) as e:
         sys.stderr.write("gen_src: unsupported: %s\n" % e)
         sys.exit(2)
